@@ -24,6 +24,7 @@ import (
 
 // c14.sched  nHosts maxConns maxFails expiry unhealthyBits nThreads events
 //   expiry  0 fail_timeout 0 (failures not counted) | 1 fail_timeout 1h (never expires within the run) | 2 fail_timeout 15ms (awaited at once)
+//           3 fail_timeout 300ms: failures are recorded at least 120ms apart and the event "w" waits for the oldest to expire
 //   events  comma list of t:x : request t runs to its next blocking point; x = preferred backend (when it selects) or
 //           outcome code (when its round trip ends: 0 ok 1 error 2 client cancelled 3 body too large 4 panic)
 //   out     snapshots after every event, joined by ";" : label|conns|fails|inflight
@@ -172,7 +173,7 @@ func c14Eval(f []string) (string, []string) {
 		return "bad-case", nil
 	}
 	id := fmt.Sprintf("s%d", atomic.AddInt64(&c14Counter, 1))
-	ft := map[string]string{"0": "0s", "1": "1h", "2": "15ms"}[expiry]
+	ft := map[string]string{"0": "0s", "1": "1h", "2": "15ms", "3": "300ms"}[expiry]
 	if ft == "" {
 		return "bad-case", nil
 	}
@@ -251,6 +252,10 @@ func c14Eval(f []string) (string, []string) {
 	var events [][2]int
 	if f[6] != "" {
 		for _, e := range strings.Split(f[6], ",") {
+			if e == "w" {
+				events = append(events, [2]int{1000, 0})
+				continue
+			}
 			p := strings.Split(e, ":")
 			if len(p) != 2 {
 				return "bad-case", nil
@@ -264,7 +269,24 @@ func c14Eval(f []string) (string, []string) {
 		}
 	}
 	maxSel := 0
+	var queue []int // backends of the outstanding failures, oldest first (expiry 3)
 	for _, ev := range events {
+		if ev[0] == 1000 {
+			if len(queue) == 0 {
+				snaps = append(snaps, snapshot("noop"))
+				continue
+			}
+			h := queue[0]
+			queue = queue[1:]
+			before := atomic.LoadInt32(&pool[h].Fails)
+			deadline := time.Now().Add(5 * time.Second)
+			for atomic.LoadInt32(&pool[h].Fails) >= before && time.Now().Before(deadline) {
+				time.Sleep(500 * time.Microsecond)
+			}
+			tags["failure-expired-while-another-outstanding"] = len(queue) > 0 || tags["failure-expired-while-another-outstanding"]
+			snaps = append(snaps, snapshot("exp:"+strconv.Itoa(h)))
+			continue
+		}
 		th, x := s.threads[ev[0]], ev[1]
 		label := ""
 		switch th.get() {
@@ -323,6 +345,10 @@ func c14Eval(f []string) (string, []string) {
 			th.reported = true
 			label = "fin:" + strconv.Itoa(h) + ":" + c14Outcomes[o]
 			tags["outcome-"+c14Outcomes[o]] = true
+			if o == 1 && expiry == "3" {
+				queue = append(queue, h)
+				time.Sleep(120 * time.Millisecond)
+			}
 			if o == 1 && expiry == "2" {
 				deadline := time.Now().Add(5 * time.Second)
 				for atomic.LoadInt32(&pool[h].Fails) != 0 {
@@ -352,8 +378,10 @@ func c14Eval(f []string) (string, []string) {
 	}
 	snaps = append(snaps, snapshot("final"))
 	var tl []string
-	for k := range tags {
-		tl = append(tl, k)
+	for k, v := range tags {
+		if v {
+			tl = append(tl, k)
+		}
 	}
 	if maxSel > 1 {
 		tl = append(tl, "overlapping-select-windows")
@@ -423,6 +451,36 @@ func c14Gen(g *hx.Gen) {
 				}
 			}
 		}
+	}
+	// 1b. two failures recorded 120ms apart, then each awaited: the first expires while the second is outstanding
+	//     (same backend and different backends, max_fails high enough / too low to keep the backend selectable)
+	K := 12
+	if g.Thorough() {
+		K = 80
+	}
+	for it := 0; it < K; it++ {
+		nThreads := 3 + r.Intn(2)
+		mf := 1 + r.Intn(3)
+		pref2 := r.Intn(2)
+		var parts []string
+		// request 0 fails on its backend, request 1 fails on pref2, others answer; waits in between and at the end
+		seq := [][2]int{{0, 0}, {0, 0}, {0, 1}, {1, pref2}, {1, 0}, {1, 1}}
+		for _, e := range seq {
+			parts = append(parts, fmt.Sprintf("%d:%d", e[0], e[1]))
+		}
+		parts = append(parts, fmt.Sprintf("2:%d", r.Intn(2)), "2:0")
+		if r.Bool() {
+			parts = append(parts, "2:0")
+		}
+		parts = append(parts, "w")
+		parts = append(parts, fmt.Sprintf("%d:%d", nThreads-1, r.Intn(2)))
+		parts = append(parts, "w", "w")
+		for round := 0; round < 4; round++ {
+			for t := 0; t < nThreads; t++ {
+				parts = append(parts, fmt.Sprintf("%d:0", t))
+			}
+		}
+		g.Case("2", strconv.Itoa(r.Intn(3)), strconv.Itoa(mf), "3", "00", strconv.Itoa(nThreads), strings.Join(parts, ","))
 	}
 	// 2. seeded random schedules: 2..3 backends, 2..5 requests (thorough: up to 6), all outcome kinds
 	N := 1200
